@@ -369,3 +369,100 @@ func ruleXtextDecodesEveryPlus(c *Ctx) {
 	R.Ob("decodeXtext/has a decoding result", c.P.Pos(f.Pos()), nDec >= 1, "no accepting return fed by the hexchar replacement")
 	_ = nRaw
 }
+
+// rulePathBytesPassThrough (C14, C11): the scanning loops of the path parser decide about an octet only by comparing
+// it with ASCII constants, and the facts that hold where an octet is consumed are exactly "it is none of the stop
+// characters". Everything else — in particular every octet >= 0x80 of a UTF-8 mailbox — is taken over unchanged.
+func rulePathBytesPassThrough(c *Ctx) {
+	R := c.R
+	R.Rule("R-path-bytes-pass-through", "E4 value uses", "in parseMailbox and parseLocalPart the peeked/read octet is only compared with ASCII constants, written to the result or handed to the parser's own byte helpers: no classification function decides about single octets of a UTF-8 string, and the consuming sites exclude exactly the stop characters", 2)
+	type want struct {
+		fn    string
+		scope string
+		stops map[int64]bool
+	}
+	mk := func(xs ...int64) map[int64]bool {
+		m := map[int64]bool{}
+		for _, x := range xs {
+			m[x] = true
+		}
+		return m
+	}
+	for _, w := range []want{
+		{"(*parser).parseMailbox", `(*parser).expectByte(param0,64) == nil`, mk(' ', '\t', '>')},
+		{"(*parser).parseLocalPart", `(*parser).acceptByte(param0,34) == false`, mk('@', '(', ')', '<', '>', '[', ']', ':', ';', '\\', ',', '"', ' ', '\t')},
+	} {
+		f := c.A.Func(w.fn)
+		if f == nil {
+			continue
+		}
+		// 1. uses of the octet values
+		nVals := 0
+		allInstrs(f, func(in ssa.Instruction) {
+			ex, ok := in.(*ssa.Extract)
+			if !ok || ex.Index != 0 {
+				return
+			}
+			call, ok := ex.Tuple.(*ssa.Call)
+			if !ok {
+				return
+			}
+			g := staticCallee(&call.Call)
+			if g == nil || (qualFuncName(g) != "(*parser).peekByte" && qualFuncName(g) != "(*parser).readByte") {
+				return
+			}
+			nVals++
+			var visit func(v ssa.Value, depth int)
+			visit = func(v ssa.Value, depth int) {
+				if depth > 4 {
+					return
+				}
+				for _, r := range referrers(v) {
+					switch x := r.(type) {
+					case *ssa.BinOp:
+						other := x.Y
+						if other == v {
+							other = x.X
+						}
+						k, isK := constInt(other)
+						R.Ob(c.siteKey(x, "octet compared with an ASCII constant"), c.P.InstrPos(x), isK && k >= 0 && k < 0x80 && (x.Op.String() == "==" || x.Op.String() == "!="), "the octet is used in "+describe(x)+": a comparison other than (in)equality with an ASCII constant classifies UTF-8 continuation octets")
+					case *ssa.Phi:
+						visit(x, depth+1)
+					case *ssa.Convert, *ssa.ChangeType:
+						visit(x.(ssa.Value), depth+1)
+					case *ssa.Call:
+						callee := staticCallee(&x.Call)
+						okCall := callee != nil && (qualFuncName(callee) == "(*strings.Builder).WriteByte" || strings.HasPrefix(qualFuncName(callee), "(*parser)."))
+						R.Ob(c.siteKey(x, "octet handed only to the builder or the parser's own helpers"), c.P.InstrPos(x), okCall, "the octet is passed to "+describe(x.Call.Value)+": single octets of a UTF-8 string must not be classified by a function working on characters (unicode.IsSpace(rune(ch)) is true for the continuation octets 0x85 and 0xA0)")
+					case *ssa.DebugRef, *ssa.Extract, *ssa.If, *ssa.Return, *ssa.Store, *ssa.MakeInterface:
+					}
+				}
+			}
+			visit(ex, 0)
+		})
+		R.Ob(w.fn+"/octet values found", c.P.Pos(f.Pos()), nVals >= 1, "no peekByte/readByte result found")
+		// 2. at the consuming site, the excluded values are exactly the stop characters
+		allInstrs(f, func(in ssa.Instruction) {
+			if !isStaticCall(in, "(*parser).readByte") {
+				return
+			}
+			ff := c.F.Analyze(f)
+			if !ff.At(in)[canonAtom(w.scope)] && !ff.At(in)[w.scope] {
+				return
+			}
+			extra := ""
+			for a := range ff.At(in) {
+				m := regexpCache(`^\(\*parser\)\.peekByte\(param0\)#0 != (\d+)$`).FindStringSubmatch(a)
+				if m == nil {
+					continue
+				}
+				var k int64
+				fmt.Sscan(m[1], &k)
+				if !w.stops[k] {
+					extra += fmt.Sprintf(" %q", rune(k))
+				}
+			}
+			R.Ob(c.siteKey(in, "no stop character beyond the grammar's"), c.P.InstrPos(in), extra == "", "the loop also stops at"+extra+": a well-formed mailbox containing it is cut short and refused")
+		})
+	}
+}
